@@ -529,6 +529,11 @@ fn stale_panic_counter(e: &'static Engine, workers: usize, std_mutex: bool, earl
 
 pub fn build(quick: bool) -> Vec<Scenario> {
     let mut v = vec![];
+    // the panic poisons a mutex that a Condvar waiter is about to take back: the waiter gets the poisoned guard with the
+    // mutex held, later lockers still get the lock
+    for (w, kind, timed) in [(1usize, 'C', false), (2, 'T', false), (1, 'C', true)] {
+        v.push(Scenario::new("C13", "panic_poisons_condvar_mutex", format!("panic.poisons_mutex_of_condvar_waiter.{}{}.w{}", kind, if timed { ".wait_timeout" } else { "" }, w), Arc::new(move |e| super::c11::cv_poisoned(e, w, kind, timed))).vt_horizon(50_000_000));
+    }
     for w in [1usize, 2] {
         for (stdm, earlier) in [(false, false), (true, false), (false, true)] {
             v.push(
